@@ -192,6 +192,10 @@ impl<'r> Gen<'r> {
                 };
                 self.item(name, form)
             }
+            Ty::Any(_) => {
+                let form = self.wild_form(depth);
+                self.item(name, form)
+            }
             Ty::Char => {
                 let form = if self.mistake(self.cfg.allow.bad_value, 15) {
                     if self.rng.pct(50) {
@@ -206,6 +210,61 @@ impl<'r> Gen<'r> {
                 };
                 self.item(name, form)
             }
+        }
+    }
+
+    /// Any meta form with any value: for conversions judged on totality only.
+    fn wild_form(&mut self, depth: usize) -> Form {
+        const INTS: [&str; 30] = [
+            "0", "1", "127", "128", "255", "256", "32768", "65535", "65536", "2147483648", "4294967295", "4294967296", "9223372036854775808",
+            "18446744073709551615", "18446744073709551616", "170141183460469231731687303715884105728", "340282366920938463463374607431768211455",
+            "340282366920938463463374607431768211456", "999999999999999999999999999999999999999999999999999999999999", "0xFF", "0xffff_ffff_ffff_ffff_ffff",
+            "0o777", "0b1010_1010", "1u8", "300u8", "1i128", "1_000_000", "7usize", "00000000000000000000000000000000000000001", "0x0",
+        ];
+        const FLOATS: [&str; 10] = ["1.5", "0.0", "1e10", "1e400", "3.5e38f32", "1f64", "1e-400", "123456789012345678901234567890.0", "1.0e0", "2.5f32"];
+        const STRS: [&str; 40] = [
+            "", "0", "-1", "-128", "-129", "255", "256", "1e400", "NaN", "inf", "-inf", "1.5", "abc", "a::b", "::a", "Vec<u8>", "pub(crate)", "pub", "where T: Clone",
+            "T: Clone, U: Copy", "[1, 2]", "[\"a\", \"b\"]", "[1, x]", "1..2", "fn()", "|x| x", "true", "false", "x", "xy", " ", "a b", "1 2", "snake_case", "PascalCase",
+            "r#type", "self", "a,b,c", "a, b,", "é",
+        ];
+        const EXPRS: [&str; 34] = [
+            "[1, 2, 3]", "[\"a\", \"b\"]", "[1, \"a\"]", "[]", "[300, 1]", "[-1]", "[1u8, 2u64]", "a::b", "::a", "foo(1)", "1..2", "..", "(1)", "{ 1 }", "|x| x", "&x", "x as u8", "1 + 2",
+            "-1", "-129", "!true", "a.b", "a[0]", "if a { 1 } else { 2 }", "Self", "self", "crate::x", "<T as U>::V", "b'a'", "b\"bytes\"", "r#\"raw\"#", "'a'", "'\\n'", "x!()",
+        ];
+        match self.rng.below(12) {
+            0 => Form::Word,
+            1 | 2 => Form::NV(Value::Raw(self.rng.pick(&INTS).to_string())),
+            3 => Form::NV(Value::Raw(self.rng.pick(&FLOATS).to_string())),
+            4 | 5 | 6 => Form::NV(Value::Str(self.rng.pick(&STRS).to_string())),
+            7 | 8 => Form::NV(Value::Raw(self.rng.pick(&EXPRS).to_string())),
+            9 => Form::NV(Value::Bool(self.rng.pct(50))),
+            10 => {
+                // a list: items, literals, nested lists, or token soup
+                if self.cfg.allow.malformed && self.rng.pct(25) {
+                    self.bad_list()
+                } else {
+                    let n = self.rng.below(4);
+                    let mut v = Vec::new();
+                    for i in 0..n {
+                        if self.rng.pct(40) {
+                            let text = match self.rng.below(4) {
+                                0 => self.rng.pick(&INTS).to_string(),
+                                1 => format!("\"{}\"", self.rng.pick(&STRS)),
+                                2 => "true".to_string(),
+                                _ => self.rng.pick(&FLOATS).to_string(),
+                            };
+                            v.push(Nested::Lit { text, range: ZERO });
+                        } else {
+                            let name = ["p", "q::r", "::s", "t"][i % 4];
+                            let form = if depth < 3 && self.rng.pct(30) { self.wild_form(depth + 1) } else { Form::Word };
+                            let it = self.item(name, form);
+                            v.push(Nested::Item(it));
+                        }
+                    }
+                    Form::List(v)
+                }
+            }
+            _ => Form::NV(Value::Char(*self.rng.pick(&['a', 'Z', '0', ' ']))),
         }
     }
 
@@ -468,6 +527,10 @@ pub const META_RECEIVERS: [&str; 28] = [
 pub fn receiver_names(mode: &str) -> Vec<&'static str> {
     if mode == "map" {
         vec!["MP", "F3", "RHS", "RHS", "RHI", "RHP", "RHN", "RHH", "RHB", "RHU", "RBS", "RBI", "RBN"]
+    } else if mode == "wild" {
+        let mut v = META_RECEIVERS.to_vec();
+        v.extend(["L1", "L2", "L3", "L1", "L2", "L3"]);
+        v
     } else {
         META_RECEIVERS.to_vec()
     }
